@@ -164,6 +164,24 @@ def pem_marker_key():
     return ec.derive_private_key(d, ec.SECP256R1())
 
 
+def special_ec_keys(rng):
+    """EC keys from corpus/special_ec.json: small private scalars (many leading zero octets in d) whose x or y
+    has one / at least two leading zero octets; plus a random d with exactly one leading zero octet."""
+    import json
+    from pathlib import Path
+    spec = json.loads((Path(__file__).resolve().parent.parent.parent / "corpus" / "special_ec.json").read_text())
+    out = []
+    for crv, tags in spec.items():
+        curve, n = CURVES[crv]
+        for tag, d in tags.items():
+            k = ec.derive_private_key(d, curve())
+            out.append((f"{crv}-special-{tag}", ECKey(k, k)))
+        d = rng.getrandbits(8 * (n - 1) - (7 if crv == "P-521" else 0)) | 1
+        k = ec.derive_private_key(d, curve())
+        out.append((f"{crv}-d-leading-zero", ECKey(k, k)))
+    return out
+
+
 def population(ctx):
     """[(label, joserfc Key)] over all key types, generated and imported."""
     rng = ctx.rng
@@ -183,7 +201,21 @@ def population(ctx):
         if lz is not None:
             out.append((f"{crv}-leading-zero", ECKey(lz, lz)))
     out.append(("P-256-pem-marker", ECKey(pem_marker_key(), pem_marker_key())))
+    out += special_ec_keys(rng)
     for crv, kn in (("Ed25519", "ed25519"), ("Ed448", "ed448"), ("X25519", "x25519"), ("X448", "x448")):
         out.append((kn, K.key(kn)))
         out.append((f"{crv}-gen", OKPKey.generate_key(crv)))
+    return out
+
+
+def odd_shapes():
+    """Keys imported from JWKs that carry private-flagged members without counting as private keys,
+    and public-only keys with extra parameters (C12: the export filter must not depend on is_private)."""
+    out = []
+    d = K.jwk_dict("rsa2048")
+    out.append(("odd-rsa-crt-no-d", RSAKey.import_key({k: v for k, v in d.items() if k != "d"})))
+    out.append(("odd-rsa-p-only", RSAKey.import_key({k: v for k, v in d.items() if k in ("kty", "n", "e", "p")})))
+    out.append(("odd-rsa-public-extra", RSAKey.import_key({k: v for k, v in d.items() if k in ("kty", "n", "e")}, {"use": "sig", "kid": "pub"})))
+    for kn in ("p256", "ed25519", "x25519"):
+        out.append((f"odd-{kn}-public", K.key(kn, private=False)))
     return out
